@@ -24,6 +24,11 @@ THEOREMS = [
     "parse_render", "parse_sound", "stack_discipline", "pipeline_reads", "typed_pipeline_reads",
     # the typed tree (after TypeTransformBool): a bracketing of the written text, both operands kept
     "typed_tree_is_a_bracketing", "regrouped_operands_both_kept", "typed_not_negates",
+    # round 8: the typed class of the operand where not / and / or meet it (regenerated class table of package ast)
+    "operand_classes_are_bool_nodes", "operand_classes_complete", "connective_classes_are_bool_nodes",
+    "declared_type_is_not_the_criterion", "typedC_eq", "operand_accepted_iff_bool_node",
+    "typed_not_negates_any_operand_class", "connectives_accept_every_bool_operand_class",
+    "declared_type_check_rejects_a_bool_node",
     # the property, clause by clause
     "and_over_or", "and_over_or_both_orders", "paren_groups", "paren_content_only_by_value", "chain_assoc",
     "not_paren_negates", "redundant_parens", "redundant_parens_same_tree", "respell_invariant",
@@ -44,6 +49,10 @@ TABLE_OBLIGATIONS = [
     "transformBools, PostProcess, untypedQueryNode.TypeTransformBool in package ast are the forms `transform` / "
     "`T.eval` follow: one typed node per untyped node, no rewrite of the tree)",
     "keywords_are_expected (AND OR NOT TRUE FALSE are the case-insensitive letter fragments)",
+    "operand_classes_are_bool_nodes / operand_classes_complete / connective_classes_are_bool_nodes / "
+    "declared_type_is_not_the_criterion (Generated/C10Classes.lean, regenerated from ast/*.go: the structs a typed "
+    "operand of not / and / or can be are exactly the non-transitory structs implementing BoolNode; "
+    "BinaryFloat64ExprNode is one of them and is the only one whose GetType() is not bool / any)",
 ]
 
 
@@ -103,7 +112,7 @@ def case_skeleton(case):
         return spelled_skeleton(_unhex(f[2]).decode("latin-1"))
     if f[0] == "x":
         return spelled_skeleton(_unhex(f[1]).decode("latin-1"))
-    return None
+    return None  # c-cases (typed class of an atom) have no skeleton
 
 
 def and_then_or(sk):
@@ -186,6 +195,10 @@ def describe(case, impl, model, spec):
     if f[0] == "k":
         d.update(kind="skeleton: ast.Parse + typed tree (Visitor) + EvalBool over all assignments",
                  query=canonical(f[2]), atoms=int(f[1]))
+    elif f[0] == "c":
+        d.update(kind="typed class of an operation atom: Go struct of the typed predicate + constant its GetType() reports, "
+                      "compared with the class table of the Lean driver / the regenerated class table (model only)",
+                 atom=f[1])
     elif f[0] == "x":
         d.update(kind="damaged spelling: accept/reject + EvalBool over the row table, model only",
                  text_with_placeholders=_unhex(f[1]).decode("latin-1"), query=real_text(f[1]), atom_truth=f[2])
@@ -220,7 +233,10 @@ RULE = ("k: every token sequence over {atom ( ) and or not} up to length 5 (quic
         "1500 of that family over operation atoms as r-cases.  r: operation atoms (bool symbols, =, !=, <, <=, >, >= on "
         "int / string / bool / datetime fields, = / != null, in, between, contains, icontains and their not-forms over "
         "numbers, strings and datetime(...) literals, anyOf / allOf / count / isEmpty on a set field, count / isEmpty of a "
-        "sub-query `from kids where ...`; 39 atoms, each a template over the places where ZitiQl.g4 has WS* / WS+ / one "
+        "sub-query `from kids where ...`; round 8: comparisons typed as float64 - a float64 field against a decimal / "
+        "an integer literal (>, <=, !=, =), an int64 field against a literal with a decimal point (=, <, >=) - float "
+        "between / not between / in; 49 atoms covering every struct a typed operand can be except AnyTypeSymbolNode "
+        "(c-cases: the struct and GetType() of each atom's typed node), each a template over the places where ZitiQl.g4 has WS* / WS+ / one "
         "WS and over its case-insensitive keywords, 26 spellings each: canonical, compact + upper case, a blank in every "
         "gap, tab/CR/LF in every gap, 22 random - inside `datetime( ... )`, between `not` and in/between/contains, around "
         "commas and brackets, inside `anyOf( x )`, `count( from x where ... )`, around comparison operators; every "
@@ -233,6 +249,7 @@ RULE = ("k: every token sequence over {atom ( ) and or not} up to length 5 (quic
         "spacing variants inside the atoms) of random mixed queries with 1-5 operation atoms.  "
         "D: 234 / 2524 of the k and r cases executed a second time with ast.EnableQueryDebug = true (process-wide "
         "configuration; stderr / log to /dev/null; same outcome required).  "
+        "c: the 49 atoms, typed class observed by reflection.  "
         "x: 1500 / 40000 damaged spellings (required blank removed, word split/glued, parenthesis dropped/doubled, "
         "reserved or keyword-like word as atom, `not` + blank + in…/contains…) compared with the lexer model only.  "
         "non-trivial = accepted and mixes at least two of {and, or, not, parentheses}; distinct = (kind, skeleton "
@@ -255,6 +272,10 @@ def run(ctx, replay_cases=None):
         "so `not (P)` is checked against whatever P evaluates to, not against a complementary operator",
         "the generated parser hands every operator the rest of its level as right operand; the grouping is restored "
         "by the listener (ExitGroup marks parenthesised nodes, ExitAndExpr re-associates) - both parts are modelled",
+        "where not / and / or meet an operand the code decides by the interface assertion operand.(BoolNode) on the "
+        "TYPED operand (bodies pinned); the model takes the struct of every typed atom as a parameter and reads "
+        "BoolNode membership / GetType() from the class table regenerated from ast/*.go; the struct the driver assumes "
+        "for each atom of the r-cases is compared with the real typed node on every run (c-cases)",
         "after the listener the tree is only typed node by node (BooleanLogicExprNode / UntypedNotExprNode "
         "TypeTransformBool: one And/Or/Not node per untyped node); the bodies are pinned by the extractor",
         "the prefix `not` is the loosest operator (last alternative of boolExpr: its operand is the rest of its "
@@ -287,7 +308,7 @@ def run(ctx, replay_cases=None):
         return common.finish(ctx, trusted_base=TRUSTED)
 
     spec_bad, corr_bad, keys = [], [], set()
-    hist = {"k_cases": 0, "r_cases": 0, "x_cases": 0, "D_cases": 0, "other_error": 0, "accepted": 0, "parse_error": 0, "type_error": 0,
+    hist = {"k_cases": 0, "r_cases": 0, "x_cases": 0, "D_cases": 0, "c_cases": 0, "other_error": 0, "accepted": 0, "parse_error": 0, "type_error": 0,
             "accepted_with_and_then_or": 0, "by_atoms": {}, "model_vs_spec_differ": 0}
     for i in range(n):
         c, a, m, s = lines[i], impl[i], model[i], spec[i]
